@@ -24,6 +24,15 @@ def scenarios(rng, P, quick):
         dict(name="output-file", tree={b"f": ("f", A, 0o644), b"p.diff": ("f", u, 0o644)}, argv=[b"-o", b"out", b"-i", b"p.diff"]),
         dict(name="two-files", tree={b"f": ("f", A, 0o644), b"g": ("f", A, 0o644), b"p.diff": ("f", u + emit.unified_text(gen.make_hunks(a, b, 2), b"g", b"g"), 0o644)}, argv=[b"-i", b"p.diff"]),
     ]
+    # a target and a patch larger than one stdio buffer (4096 bytes), the buffer boundary falling inside a line
+    big = [(b"line %04d of a file that is larger than one stdio buffer" % i, "L") for i in range(300)]
+    bigb = big[:150] + [(b"changed in the middle", "L")] + big[151:]
+    cs.append(dict(name="large-target", tree={b"f": ("f", gen.render(big, "keep"), 0o644), b"p.diff": ("f", emit.unified_text(gen.make_hunks(big, bigb, 3), b"f", b"f"), 0o644)}, argv=[b"-i", b"p.diff"]))
+    rewrite = [(c + b" - rewritten", t) for c, t in big]
+    cs.append(dict(name="large-patch", tree={b"f": ("f", gen.render(big, "keep"), 0o644), b"p.diff": ("f", emit.unified_text(gen.make_hunks(big, rewrite, 3), b"f", b"f"), 0o644)}, argv=[b"-i", b"p.diff"]))
+    # a file-creating patch whose target already exists (the fault-free run rejects the hunk)
+    cs.append(dict(name="create-existing", tree={b"f": ("f", A, 0o644), b"p.diff": ("f", emit.unified_text(gen.make_hunks([], b, 3), b"/dev/null", b"f", b"", b""), 0o644)}, argv=[b"-f", b"-i", b"p.diff"]))
+    cs.append(dict(name="reverse-delete-existing", tree={b"f": ("f", A, 0o644), b"p.diff": ("f", emit.unified_text(gen.make_hunks(b, [], 3), b"f", b"/dev/null", b"", b""), 0o644)}, argv=[b"-f", b"-R", b"-i", b"p.diff"]))
     for c in cs:
         c["tree"] = box.Tree(c["tree"])
     return cs if not quick else cs
